@@ -1346,6 +1346,7 @@ def _generic_rules(chk):
     flt = lambda name: bool(scope.search(name.rsplit('.', 1)[-1]))
     _g.rule_group_names(chk, idx_, _Res(idx_), 'C06.groups', 'recognizers_date_time', flt, floor=3)
     _g.rule_filter_predicates(chk, idx_, 'C06.filters', 'recognizers_date_time', floor=10)
+    _g.rule_index_guards(chk, idx_, 'C06.index-guards', 'recognizers_date_time', floor=9)
 
 
 _run_before_generic = run
